@@ -5,9 +5,9 @@ CONSTANTS
   MaxCalls = 2
   Record = FALSE
   Mode = "fixed"
-  Lag = FALSE
-  Sequential = FALSE
+  Lag = TRUE
+  Sequential = TRUE
   Sample = 0
-INVARIANTS IdsIncrease IdsUnique ListExact
-PROPERTIES CreateOnlyIfAbsent
+INVARIANTS IdsIncrease IdsUnique ListExact QuietCreate
+PROPERTIES CreateOnlyIfAbsent QuietCreateStep
 CHECK_DEADLOCK FALSE
